@@ -71,7 +71,7 @@ def endsWithStr (s suf : String) : Bool := s.endsWith suf
 def flipRecord (e : Edit) (r : Record) : Record :=
   let fb := fieldBase e.field
   let i := fieldIndex e.field
-  if fb == "beyond" then r
+  if fb.startsWith "beyond" then r
   else if fb == "record.type" then { r with typ := Nat.xor r.typ e.mask }
   else if fb == "record.version" then
     let hi := r.vers / 256
@@ -120,7 +120,7 @@ def queueOf (k : Codes) (e : Edit) (w : Role) (outs : List (Role × Record)) : L
         -- the other direction: only what was written before the cut
         recsOf w (outs.take cut)
   else if !edited then recs
-  else if e.kind == "flip" then recs.mapIdx (fun j r => if j = e.idx then flipRecord e r else r)
+  else if e.kind == "flip" || e.kind == "setlen" then recs.mapIdx (fun j r => if j = e.idx then flipRecord e r else r)
   else if e.kind == "drop" then recs.take e.idx ++ recs.drop (e.idx + 1)
   else if e.kind == "dup" then
     match recs[e.idx]? with
@@ -195,7 +195,7 @@ def judge (c o : String) : Option Verdict := do
   let kind ← kv ct "edit"
   let e : Edit := {
     kind := kind, toServer := (kv ct "dir") != some "s2c", idx := (kvNat ct "rec").getD 0,
-    mask := ((kv ct "mask").bind parseHexNat).getD 0, inj := (kv ct "inj").getD "",
+    mask := if kind == "setlen" then 1 else ((kv ct "mask").bind parseHexNat).getD 0, inj := (kv ct "inj").getD "",
     rtype := (kv ct "rtype").getD "-", field := (kv ct "field").getD "-",
     orig := ((kv ct "orig").bind parseHexNat).getD 0 }
   let W := world cf
@@ -232,7 +232,18 @@ def judge (c o : String) : Option Verdict := do
   let cv := (kv ot "cv").bind parseView
   let sv := (kv ot "sv").bind parseView
   let base := (kv ct "base").bind parseNego
-  let spec := judgeObs (opanic != "0" || oc == "panic" || os == "panic") cv sv (oc == "completed") (os == "completed") base
+  -- an edit of authenticated bytes (anything but the record header; not the cookie prelude of the
+  -- datagram stack) on a record that was never retransmitted
+  let fieldTok0 := (kv ct "field").getD "-"
+  let msgTok0 := (kv ct "msg").getD "-"
+  let same := (kvNat ot "same").getD 0
+  let altered : Option String :=
+    if (kind == "flip" || kind == "setlen") && same == 1 && !startsWithStr fieldTok0 "record." &&
+        !startsWithStr fieldTok0 "beyond" && fieldTok0 != "-" && msgTok0 != "HelloVerifyRequest" &&
+        !(dtls && msgTok0 == "ClientHello") then
+      some s!"{msgTok0}:{fieldBase fieldTok0}"
+    else none
+  let spec := judgeObs (opanic != "0" || oc == "panic" || os == "panic") cv sv (oc == "completed") (os == "completed") base altered
   let exact := mc == oc && ms == os && mstall == ostall
   let note := if !predicts then s!"dtlcp:unmodelled:both{oboth}"
     else if exact then "detail:exact" else s!"detail:coarse:model:{mc}/{ms}/stall{mstall}"
